@@ -41,12 +41,11 @@ const (
 )
 
 func c06Library(fc FlowControl) *rate.Limiter {
-	tb, ok := fc.(*resizeableTokenBucket)
-	vassert(ok, "C06/token-bucket-schema-builds-another-limiter")
-	if !ok {
+	vassert(fc != nil && fc.Type() == proxyv1alpha1.TokenBucket, "C06/token-bucket-schema-builds-another-limiter")
+	if fc == nil {
 		return nil
 	}
-	lim, _ := vgetPriv(tb.rateLimiter, "limiter").(*rate.Limiter)
+	lim := c06Bucket(fc)
 	vassert(lim != nil, "C06/library-bucket-not-found")
 	return lim
 }
@@ -63,14 +62,22 @@ func c06ArbitraryState(lim *rate.Limiter, burst int32, key string) (tok float64,
 
 func c06ResizeTarget(i int) int { return [...]int{3, 1, 0, 2, 4}[i] }
 
-// c06HistoryCall: one call of the history, answered arbitrarily by the library bucket (which an arbitrary bucket state
-// can always produce): the wrapper's own code runs for real, the library is a two-valued stub for this call only.
-func c06HistoryCall(fc FlowControl, qps int32, key string) {
-	tb := fc.(*resizeableTokenBucket)
-	real := tb.rateLimiter
-	tb.rateLimiter = &c06Spy{answer: nondetBool(key), qps: float32(qps)}
+// c06HistoryCall: one call of the history, admitted or refused by the library bucket as the harness chooses (a full
+// bucket admits, an empty one at a standing clock refuses): the wrapper's own code and the library run for real.
+func c06HistoryCall(fc FlowControl, burst int32, key string) {
+	lim := c06Bucket(fc)
+	if lim == nil {
+		return
+	}
+	tok := 0.0
+	if nondetBool(key) {
+		tok = float64(burst)
+	}
+	vsetPriv(lim, "tokens", tok)
+	vsetPriv(lim, "last", time.Now())
+	vclockFreeze(true)
 	fc.TryAcquire()
-	tb.rateLimiter = real
+	vclockFreeze(false)
 }
 
 // c06StepSetup builds the limiter of a token-bucket schema through the real constructor and drives kubegateway's own
@@ -84,10 +91,10 @@ func c06StepSetup(maxConfig int) (fc FlowControl, lim *rate.Limiter, qps, burst 
 	if lim = c06Library(fc); lim == nil {
 		return
 	}
-	vassert(vgetPriv(lim, "burst").(int) == int(burst) && float64(vgetPriv(lim, "limit").(rate.Limit)) == float64(qps), "C06/configured-numbers-not-installed-in-the-library-bucket")
+	vassert(lim.Burst() == int(burst) && float64(lim.Limit()) == float64(qps), "C06/configured-numbers-not-installed-in-the-library-bucket")
 	// history of the wrapper
 	if nondetBool("historyCallBefore") {
-		c06HistoryCall(fc, qps, "answerH1")
+		c06HistoryCall(fc, burst, "answerH1")
 	}
 	if nondetBool("historyResize") {
 		q2, b2 := c06Config(c06ResizeTarget(nondetRange("config2", 0, vbound(1, 4))))
@@ -96,9 +103,9 @@ func c06StepSetup(maxConfig int) (fc FlowControl, lim *rate.Limiter, qps, burst 
 		if lim = c06Library(fc); lim == nil {
 			return
 		}
-		vassert(vgetPriv(lim, "burst").(int) == int(burst) && float64(vgetPriv(lim, "limit").(rate.Limit)) == float64(qps), "C06/resize-numbers-not-installed-in-the-library-bucket")
+		vassert(lim.Burst() == int(burst) && float64(lim.Limit()) == float64(qps), "C06/resize-numbers-not-installed-in-the-library-bucket")
 		if nondetBool("historyCallAfter") {
-			c06HistoryCall(fc, qps, "answerH2")
+			c06HistoryCall(fc, burst, "answerH2")
 		}
 	}
 	tok, last = c06ArbitraryState(lim, burst, "tokens")
